@@ -52,6 +52,8 @@ pub struct ElfSpec {
     pub shoff: u32,
     pub file: Vec<u8>,
     pub args: String,
+    /// Some: the name the file is given on disk (the loader is handed a path; what that path is must not matter)
+    pub file_name: Option<String>,
 }
 
 impl ElfSpec {
@@ -70,7 +72,7 @@ impl ElfSpec {
         })
     }
     pub fn to_json(&self) -> Value {
-        json!({"kind": "elf", "file": crate::engine::stepcase::hex(&self.file), "args": self.args, "brief": self.brief()})
+        json!({"kind": "elf", "file": crate::engine::stepcase::hex(&self.file), "args": self.args, "file_name": self.file_name, "brief": self.brief()})
     }
 }
 
@@ -521,8 +523,32 @@ pub fn build(e: &mut Ent, o: &Opts) -> ElfSpec {
     be16(&mut h, secs.len() as u16);
     be16(&mut h, shstrndx as u16);
     file[..52].copy_from_slice(&h);
-    let args = arg_string(e);
-    ElfSpec { segs, secs, shstrndx: shstrndx as u16, got, stack_size, symbols, exit_value, phoff, shoff, file, args }
+    let mut args = arg_string(e);
+    // the path the loader is given is environment, not input: now and then the file carries a name that is also
+    // one of the argument words (a command line pasted with the program's name in it), "prog.elf" itself, or a
+    // name with blanks in it
+    let mut file_name = None;
+    if e.chance(1, 5) {
+        let safe = |w: &str| !w.is_empty() && w.len() <= 40 && w != "." && w != ".." && w.bytes().all(|c| c.is_ascii_alphanumeric() || b"._-+=,@".contains(&c));
+        let words: Vec<String> = args.split(|c| c == ' ' || c == '\t').filter(|w| safe(w)).map(|w| w.to_string()).collect();
+        let name = match e.below(4) {
+            0 if !words.is_empty() => words[e.below(words.len() as u32) as usize].clone(),
+            1 => "prog.elf".to_string(),
+            2 => {
+                // make the name the first (or a later) word of the argument string
+                let n = e.pick(&["one.elf", "a.out", "prog.elf", "test.elf", "x"]).to_string();
+                args = match e.below(3) {
+                    0 => format!("{} {}", n, args),
+                    1 => format!(" \t{}\t{} {}", n, args, n),
+                    _ => format!("{} {}", args, n),
+                };
+                n
+            }
+            _ => "my prog.elf".to_string(),
+        };
+        file_name = Some(name);
+    }
+    ElfSpec { segs, secs, shstrndx: shstrndx as u16, got, stack_size, symbols, exit_value, phoff, shoff, file, args, file_name }
 }
 
 /// expected content of the image area [0, image_end): file contents where file-backed (GOT entries
